@@ -343,6 +343,27 @@ theorem c15_gen_nextRG (g : Nat) (h : g < 2 ^ 64) :
     simp [BitVec.toNat_add, BitVec.toNat_ofNat, Nat.mod_eq_of_lt h]
     omega
 
+/-- the lock is taken (and its release deferred) before the row is first read, it is not re-taken or
+    released by hand, and the commit comes after the read -/
+def lockBeforeRead (evs : List String) : Bool :=
+  match evs with
+  | "lock" :: "defer-unlock" :: rest => rest.contains "read" ∧ ¬ rest.contains "lock" ∧ ¬ rest.contains "unlock"
+  | _ => false
+
+/-- **Lock discipline (T).**  Every mutating Shard method of table_runtime_meta.go takes the hash-slot
+    lock and defers its release BEFORE it first reads the row, and commits after the read — so the
+    read-check-write of each method is atomic with respect to the others (the sequential reducer theorems
+    then apply to every interleaving of whole methods).  A method that reads before locking breaks this. -/
+theorem c15_gen_lock_before_read :
+    WK.Gen.C15.lockOrder.map (·.1) = ["UpsertChannelRuntimeMeta", "DeleteChannelRuntimeMeta",
+      "AdvanceChannelRetentionThroughSeq"] ∧
+    WK.Gen.C15.lockOrder.all (fun e => lockBeforeRead e.2) = true := by
+  refine ⟨rfl, ?_⟩
+  decide
+
+example : lockBeforeRead ["read", "lock", "defer-unlock", "commit"] = false := by decide
+example : lockBeforeRead ["lock", "defer-unlock", "read", "commit"] = true := by decide
+
 /-! ### non-vacuity -/
 
 def exOld : Meta := ⟨2, 3, 4, 9, [1, 2], [1], 1, 1, 0, 0, 100, 5, 7, "", 0, 0, 0, 0⟩
